@@ -17,7 +17,7 @@ CHECKS = {
          "refinement + frame lemmas; differential correspondence; history monitor", "7 C03"),
  "C04": ("proof", "Props.C04.add_present_noop (state equality on the model, any state) and add_absent_blank (blank slot, nothing else touched), plus the reference versions; monC04 checks after every add() that an absent id shows no edges and no data marker and a present id changes nothing.",
          "direct proof on the model; differential correspondence; monitor", "7 C04"),
- "C05": ("proof", "Props.C05.next_id_spec, position_monotone, never_repeats (ids returned along any history from any state are pairwise distinct), above_start (a clone continues above the original's position); model = reference by Theorem A; programs over the API refine. monC05 checks below-capacity / absent / not-returned-before on the implementation's answers.",
+ "C05": ("proof", "Props.C05.next_id_spec, position_monotone, never_repeats (ids returned along any history from any state are pairwise distinct), above_start (a clone continues above the original's position); model = reference by Theorem A; programs over the API refine. monC05 checks below-capacity / absent / not-returned-before on the implementation's answers. On graphs with slots removed by join() (Core/HolesAlloc.lean): nextIdX_spec, next_stepX, nextIdX_never_again (for every call sequence, valid or not).",
          "monotone-position invariant, induction over histories; differential correspondence; monitor", "7 C05"),
  "C06": ("proof", "Theorem A is unbounded in the history length (sustained); bind_valid_below_14 + group_formed + free_slot_exists (a free slot among 2..15 exists whenever fewer than 14 groups live, whatever happened before). Tie: cycle profile (hundreds of create-put-read cycles, 0..13 long-lived groups).",
          "refinement with slot-recycling invariant; long-history correspondence", "7 C06"),
@@ -39,7 +39,7 @@ SER = "Modelled, not verified: bincode's wire format and the serde impls (re-spe
 CHECKS.update({
  "C08": ("proof", "Props.C08.load_save / load_save_reachable: decode(encode g) = g with the allocator position at 0, for every graph satisfying the explicit predicate WfG and hence (ReachW.wfG) for every graph reachable by a valid history of representable calls, of the real label/datum types (per-type round-trip lemmas incl. UTF-8 chars, both Hex variants with padding); reload_refines + continuation_after_reload: the reloaded state refines the reference with position 0, so Theorem A gives identical answers under every continuation; next_id_after_reload = lowest absent id. Tie: real image == model encoding byte for byte; reload + same/different continuations on both handles, judged against the reference.",
          "codec round-trip theorem + refinement; byte-exact image correspondence; differential continuation", "7 C08"),
- "C09": ("proof", "Props.C09.truncated_rejected / truncated_rejected_reachable: for every well-formed graph — in particular every reachable one — and every k below the image size, load of the first k bytes is the EOF error (strict-parser combinators: decoder_strict). Tie: real image == model encoding; the real load() is run on the prefixes of the real file (quick: first/last 64 and every 7th cut point, thorough: all), each must be Err without panic.",
+ "C09": ("proof", "Props.C09.truncated_rejected / truncated_rejected_reachable: for every well-formed graph — in particular every reachable one — and every k below the image size, load of the first k bytes is the EOF error (strict-parser combinators: decoder_strict). Tie: real image == model encoding; the real load() is run on the prefixes of the real file (quick: first/last 64 and every 7th cut point, thorough: all), each must be Err without panic. For graphs with slots removed by join() (every reachable graph): truncated_rejected_with_removed_slots (Codec/Holes.lean: the image with gaps in its keys, every proper prefix is EOF), profile joinser (images with one and two gaps, every cut point); the loadcuts monitor judges every handle.",
          "strict-parser proof for all graphs and all cut points; fault enumeration of cut points on the real loader as correspondence", "7 C09"),
  "C10": ("proof", "PARTIAL. In the pure model clone is the identity, so same_future_partial is determinism and clone_refines puts each copy under Theorem A; independence/aliasing of the Rust containers' Clone impls cannot be expressed in the model and is decided by the correspondence: same continuation on both copies, different continuations with the untouched copy observed after every call, each handle judged against its own reference state. The statement is also written out on a world of handles over the total model (Props.C10.World): independent / independent_calls (a call on one handle leaves every other handle's graph as it is), clone_same_future (a clone gives the same answers as the original under the same subsequent calls — also beyond the limits and after panics — whatever was done to the original in between); by construction in a model of values, stated for visibility.",
          "trivial theorem + differential aliasing check (partial)", "7 C10"),
@@ -47,7 +47,7 @@ CHECKS.update({
 
 REN = "Modelled, not verified: xml-builder, the format strings, itertools sorting and the derived label order (re-specified in Lean; real texts parsed back and compared structurally). "
 CHECKS.update({
- "C18": ("proof", "Props.C18 on the export document of the model (toXml/toDot = printer of exportDoc by definition): nodes_are_present_vertices, ascending, node_content (one entry per stored edge with label and target, data iff the vertex has data), same_content_same_text (via merge-sort of a permutation of distinct labels under the derived label order, proved strict total); and at the level of the XML text itself (Algo/RenderText.lean: the text character by character, a strict reader of the format): xml_reads_back (the reader recovers from the text alone one record per present vertex, every edge with its label as a label value and its target, the data as bytes, for labels that need no escaping) and xml_text_determines_document (the same text implies the same document, so different content gives different texts). Tie: the real to_xml()/to_dot() texts are parsed back into records and compared with the model's document; monC18 judges the parsed records against the reference state (present-only, edges, data, ascending) and compares the texts of graphs with equal content built differently.",
+ "C18": ("proof", "Props.C18 on the export document of the model (toXml/toDot = printer of exportDoc by definition): nodes_are_present_vertices, ascending, node_content (one entry per stored edge with label and target, data iff the vertex has data), same_content_same_text (via merge-sort of a permutation of distinct labels under the derived label order, proved strict total); and at the level of the XML text itself (Algo/RenderText.lean: the text character by character, a strict reader of the format): xml_reads_back (the reader recovers from the text alone one record per present vertex, every edge with its label as a label value and its target, the data as bytes, for labels that need no escaping) and xml_text_determines_document (the same text implies the same document, so different content gives different texts). Tie: the real to_xml()/to_dot() texts are parsed back into records and compared with the model's document; monC18 judges the parsed records against the reference state (present-only, edges, data, ascending) and compares the texts of graphs with equal content built differently. Graphs with slots removed by join(): nodes_are_present_vertices_with_removed_slots, node_content_with_removed_slots (the exports iterate vertices.iter(): blankHoles, keys_blankHoles).",
          "document-structure theorems and a proved left inverse of the XML printer in Lean 4; structural and exact-text correspondence of the real texts", "7 C18"),
  "C20": ("proof", "Props.C20: inspect_terminates for every reachable graph (EdgesBelow invariant + fuel bound), inspect_expands_reachable_once (expanded vertices are duplicate-free and exactly the reachable set), inspect_lists_every_edge_once (the edge entries are, as a multiset, the edges of the reachable vertices), debug_exact, vprint_exact. The line-producing recursion is proved to project onto the abstract seen-set recursion. Tie: inspect/Debug/Display/v_print texts parsed back and compared structurally; monC20 recounts the listed edges per reachable vertex against the reference; a call that gives no text (abort/time-out) is a violation attributed to that call. At the level of the text (Algo/RenderText.lean): inspect_text_lists_every_edge_once — a strict reader recovers from the text of inspect() alone the start vertex and every line (depth, label as a label value, target, ellipsis mark), and the entries so read are, as a multiset, exactly the edges of the reachable vertices. debug_text_reads_back (Algo/RenderDebug.lean): the same for Debug/Display — the reader recovers one record per present vertex in ascending order with all its edges (stored order, labels as label values) and its data as bytes, followed by exactly the lines of the group tables.",
          "DFS exactness and termination proofs in Lean 4; structural correspondence of the real texts", "7 C20"),
@@ -55,11 +55,11 @@ CHECKS.update({
 
 ALG = "Modelled, not verified: hash container iteration order (theorems hold for every order), anyhow's error text. "
 CHECKS.update({
- "C11": ("proof", "Props.C11 on the two-pass program mergeRec2 (the one executed and compared with the real merge()): model_refines (program over the API, so C01-C03 keep applying), two_pass_is_first_pass, grafts (every path of the tree exists from `left`; everything the left graph had survives), data_and_injective, new_vertices (one new vertex per lacking path, under an absent id), tree_merge_is_ok, keeps_path_injectivity; two_pass_eq_first_pass (the second pass never reports a difference on a tree, at every node), run_succeeds (the run returns a table whenever its calls stay inside the limits) and merge_of_tree (end to end on the model: merge returns Ok, the state stays related to a reference state, every path of the tree exists from `left`, nothing of the left graph is lost). Tie: random tree pairs merged on the real code and on the model; monC11 checks paths/data markers/injectivity/preservation/new-vertex count on the observed graphs and compares outcome, alive set and the drain with the reference run.",
+ "C11": ("proof", "Props.C11 on the two-pass program mergeRec2 (the one executed and compared with the real merge()): model_refines (program over the API, so C01-C03 keep applying), two_pass_is_first_pass, grafts (every path of the tree exists from `left`; everything the left graph had survives), data_and_injective, new_vertices (one new vertex per lacking path, under an absent id), tree_merge_is_ok, keeps_path_injectivity; two_pass_eq_first_pass (the second pass never reports a difference on a tree, at every node), run_succeeds (the run returns a table whenever its calls stay inside the limits) and merge_of_tree (end to end on the model: merge returns Ok, the state stays related to a reference state, every path of the tree exists from `left`, nothing of the left graph is lost). Tie: random tree pairs merged on the real code and on the model; monC11 checks paths/data markers/injectivity/preservation/new-vertex count on the observed graphs and compares outcome, alive set and the drain with the reference run. merge_in_full_is_merge: the model of merge() with join() in it (mergeX, Core/MergeHoles.lean) returns the same graph wherever merge answers Ok (Core/MergeAgree.lean).",
          "structural induction over trees + program refinement in Lean 4; differential correspondence; graft monitor", "7 C11"),
- "C12": ("proof", "Props.C12.ok_implies_complete and unreachable_gives_err (table keys are duplicate-free and reachable from `right`, so an unreachable present vertex makes the table strictly shorter and is named as missed), merge_outcome (the model makes the mapped.len()==g.len() test literally), model_refines. Tie: broken right graphs merged on the real code; monC12 accepts Ok only if every present right vertex is reachable and compares the ids named after 'missed:'.",
+ "C12": ("proof", "Props.C12.ok_implies_complete and unreachable_gives_err (table keys are duplicate-free and reachable from `right`, so an unreachable present vertex makes the table strictly shorter and is named as missed), merge_outcome (the model makes the mapped.len()==g.len() test literally), model_refines. Tie: broken right graphs merged on the real code; monC12 accepts Ok only if every present right vertex is reachable and compares the ids named after 'missed:'. merge_in_full_same_outcome: Ok and Err (same missed vertices) carry over to mergeX, the model of merge() with join() in it.",
          "cardinality argument over the mapping table in Lean 4; differential correspondence", "7 C12"),
- "C13": ("proof", "Props.C13: done_is_reachable for every drain order, terminates for every reachable graph (fuel cap+1 never exhausted), slice_exact (present vertices = reachable set under original ids; each kept vertex has exactly the source's edges into kept vertices) for every reachable source graph whose rebuild stays within the limits, slice_small (the property's own quantifier: when at most 14 ids are kept every call of the rebuild is within the limits — Sodg.valid_rebuild —, so slice_some does not panic and the result is exact, with no validity hypothesis), rebuild_refines. Tie: slices of cyclic digraphs with rejection tables on the real code vs the model; monC13 checks the statement on the observed slice (kept set, accepted edges present, no foreign edge) and that the source is unchanged.",
+ "C13": ("proof", "Props.C13: done_is_reachable for every drain order, terminates for every reachable graph (fuel cap+1 never exhausted), slice_exact (present vertices = reachable set under original ids; each kept vertex has exactly the source's edges into kept vertices) for every reachable source graph whose rebuild stays within the limits, slice_small (the property's own quantifier: when at most 14 ids are kept every call of the rebuild is within the limits — Sodg.valid_rebuild —, so slice_some does not panic and the result is exact, with no validity hypothesis), rebuild_refines. Tie: slices of cyclic digraphs with rejection tables on the real code vs the model; monC13 checks the statement on the observed slice (kept set, accepted edges present, no foreign edge) and that the source is unchanged. Sources with slots removed by join(): slice_ignores_unreached_removed_slots, slice_reaching_a_removed_slot_panics (Algo/SliceHoles.lean); sources beyond the group limit or after a non-tree merge are judged without a reference state against their last full observation (sliceFree).",
          "work-list invariant, termination measure and rebuild refinement in Lean 4; differential correspondence", "7 C13"),
 })
 
